@@ -363,7 +363,7 @@ func c11(c *wk.Ctx) {
 		{"cupcake-inrepo.New", func() hash.Hash64 { return incrc.New().(hash.Hash64) }},
 		{"cupcake-module.New", func() hash.Hash64 { return extcrc.New().(hash.Hash64) }},
 	}
-	for i := 0; i < c.N(3000, 40000); i++ {
+	for i := 0; i < c.N(3000, 200000); i++ {
 		n := rng.Pick(0, 1, 2, 7, 8, 9, 63, 64, 65, 255, 256, 1000, 4096, 70000)
 		if rng.Bool() {
 			n = rng.Range(0, 3000)
@@ -425,7 +425,7 @@ func c11(c *wk.Ctx) {
 			r.Note(fmt.Sprintf("%s artefact %d position %d: process ended (exit %d) while checking mutants: %s", kind, cs.Artefact, cs.Pos, d.Result.Exit, firstPanicLine(d.Result.Stderr)))
 		}
 	}
-	nR, nD := c.N(16, 160), c.N(32, 320)
+	nR, nD := c.N(16, 480), c.N(32, 960)
 	type job struct {
 		name       string
 		start, end int
